@@ -19,8 +19,16 @@ lsync = S.lsync
 
 def gen_plan(rng):
     n = rng.randint(2, 5)
-    kind = rng.choice(["notify", "notify", "notify_all", "mixed", "event", "locks"])
+    kind = rng.choice(["notify", "notify", "notify_all", "mixed", "event", "locks", "burst", "burst"])
     threads = []
+    if kind == "burst":
+        # several timed waiters racing one notify_all, then the condition is used again
+        k = rng.randint(2, 3)
+        threads = [[["wait", True]] + ([["wait", True]] if rng.random() < 0.3 else []) for _ in range(k)]
+        threads.append([["notify_all"], rng.choice([["notify"], ["notify_all"]])] + ([["wait", True]] if rng.random() < 0.5 else []))
+        if rng.random() < 0.5:
+            threads.append([["wait", rng.random() < 0.7]])
+        return {"kind": kind, "threads": threads, "rlock": False}
     for i in range(n):
         ops = []
         for _ in range(rng.randint(1, 3)):
@@ -155,6 +163,14 @@ def run_plan(plan, seed, trace=False):
     for w in st["waits"]:
         if w["ret"] is False and not w["fired"]:
             anomalies.append({"kind": "false-without-timeout", "sig": "wait() returned False although its time-out did not fire"})
+    n_true = sum(1 for w in st["waits"] if w["ret"] is True)
+    posted_calls = sum(1 for n in st["notifies"] if n["start"] is not None)
+    if n_true and not st["notifies"]:
+        anomalies.append({"kind": "spurious-wakeup", "sig": "wait() returned True although nobody notified"})
+    leftover = cond._wait_semaphore._semlock.value
+    if status == "quiescent" and leftover and not any(w["ret"] is None for w in st["waits"]) \
+            and all(n["end"] is not None for n in st["notifies"]):
+        anomalies.append({"kind": "stale-token", "sig": f"{leftover} wake-up token(s) left in _wait_semaphore after every call returned"})
     blocked = [w for w in st["waits"] if w["ret"] is None]
     for w in blocked:
         for n in st["notifies"]:
